@@ -25,11 +25,9 @@ programs and continuations:
 The full statement `C10.Statement` (the heap may have grown by unreachable frames, miss counters
 may differ; cache unchanged) is stated below; it is proved in lean/GrolProofs/Props/C10Full.lean by a
 two-run simulation of the whole evaluator up to a shift of the frame indices
-(`Grol.C10.renaming_invariance`): `Grol.C10.statement_core` gives, unconditionally, the same output,
-error flag, panic kind and decline reason for every input of every continuation;
-`Grol.C10.statement : RenderInv → C10.Statement` adds the rendered value, under the one hypothesis
-that the result renderer `renderValue` (a `partial def`, opaque to the kernel) is invariant under the
-renaming.  It is what the `session` correspondence suite checks on the real `repl.EvalOne`.
+(`Grol.C10.renaming_invariance`) and the invariance of the result renderer under that shift
+(`Grol.C10.renderValue_ren`): `Grol.C10.statement_full : C10.Statement`, no hypothesis.
+It is what the `session` correspondence suite checks on the real `repl.EvalOne`.
 Without the cache hypothesis the statement is false of model and code alike (listed finding
 `failed-input-leaves-cached-mutable-result`).
 -/
